@@ -77,6 +77,31 @@ example : tiledLaunch ⟨0, 20, .lt, true, .addEq 3⟩ 4 true = [0, 3, 6, 9, 12,
 example : (blockHeader ⟨0, 20, .lt, true, .addEq 3⟩ 4).DimInRange ∧ (innerHeader ⟨0, 20, .lt, true, .addEq 3⟩ 4 0).DimInRange := by
   decide
 
+/-- (a) 2-D tiling: two nested `@tile(…, @outer, @inner)` loops, where `floatOuterLoopUp` moves the inner block
+    loop above the outer in-block loop, visit a permutation of the untiled nest's iterator pairs — every pair
+    exactly once. -/
+theorem C18_tile_2d (hy hx : Header) (Ty Tx : Int) (vy : hy.Valid) (sy : 0 < hy.step) (ty : 0 < Ty)
+    (vx : hx.Valid) (sx : 0 < hx.step) (tx : 0 < Tx) :
+    (tiled2d hy Ty true hx Tx true).Perm (seqNest [hy, hx]) := by
+  have ey := C18_tile_exact hy Ty vy sy ty
+  have ex := C18_tile_exact hx Tx vx sx tx
+  unfold tiled at ey ex
+  have h1 : ∀ l : List Int, l.flatMap (fun i => [[i]]) = l.map fun i => [i] := by
+    intro l
+    induction l with
+    | nil => rfl
+    | cons a t ih => simp [List.flatMap_cons, ih]
+  have hseq : seqNest [hy, hx] = (seqIters hy).flatMap fun y => (seqIters hx).map fun x => [y, x] := by
+    simp [seqNest, h1, List.map_map, Function.comp_def]
+  rw [hseq, ← ey, List.flatMap_assoc]
+  unfold tiled2d
+  refine List.Perm.flatMap_left _ fun yT _ => ?_
+  refine (flatMap_comm_perm _ _ _).trans ?_
+  refine List.Perm.flatMap_left _ fun y _ => ?_
+  rw [← List.map_flatMap, ex]
+
+example : (tiled2d ⟨0, 5, .lt, true, .inc⟩ 2 true ⟨0, 3, .lt, true, .inc⟩ 2 true).length = 15 := by decide
+
 /-- (d) The texts of the in-block bound `(xT ± stride)` and of the block stride are derived by the C expression
     grammar as the trees that were built, for tile sizes and steps of every operator class; those trees denote
     the numeric `innerHeader` / `blockHeader` (`C18_tile_spec_value`). -/
